@@ -283,6 +283,18 @@ def stepOracle (st : St) (ws : List String) (obs : Json) : St × List String :=
     [(if toMissing then "RevokeRequestEffective/mapping-to-missing-class"
       else if mapped then "RevokeRequestEffective/mapped-class-name" else "RevokeRequestEffective", key)]
   let p8 := p8k.map (·.1)
+  -- a parent is removed / a CA is deleted: every key the CA held a certificate for under that parent is revoked there
+  -- in the same request (best effort) - the current key AND the new or old key of a roll in progress; judged on the
+  -- parent's published-object sets (a refused revocation means the parent no longer knows the child: nothing published)
+  let goneKeys : List (String × String) := match ws with
+    | ["parentrm", h, p] => classKeysOf st.prev h (some p)
+    | ["cadelete", h] => classKeysOf st.prev h none
+    | _ => []
+  let p10 := if !((jstr (jget obs "ret")).startsWith "ok") then [] else goneKeys.flatMap fun (parent, key) =>
+    if parent == "ta" || jisNull (jpath obs ["cas", parent]) then [] else
+    let still := (((objs.find? (·.1 == parent)).map (·.2)).getD []).any fun (_, c) =>
+      c.sets.any fun s => s.pub.any fun e => e.1 == enc (key ++ ".cer")
+    if still then ["ClassGoneKeysRevoked"] else []
   let ignored := dedupS (st.ignoredRevokes ++ p8k.map (·.2))
   let ignoredMissing := dedupS (st.ignoredMissing ++
     (p8k.filter (·.1 == "RevokeRequestEffective/mapping-to-missing-class")).map (·.2))
@@ -291,7 +303,7 @@ def stepOracle (st : St) (ws : List String) (obs : Json) : St × List String :=
     | ["settle", h, _] => [h]
     | _ => []
   let p9 := rpPreds obs objs (fun h => inSync h && !(syncPending obs h)) ignored ignoredMissing isAged settled
-  ({ st with seen, revokeWait := wait, unsynced, ignoredRevokes := ignored, ignoredMissing, aged }, dedupS (p1 ++ p2 ++ p3 ++ p4 ++ p5 ++ p6 ++ p7 ++ p8 ++ p9))
+  ({ st with seen, revokeWait := wait, unsynced, ignoredRevokes := ignored, ignoredMissing, aged }, dedupS (p1 ++ p2 ++ p3 ++ p4 ++ p5 ++ p6 ++ p7 ++ p8 ++ p9 ++ p10))
 
 /-- Which property an oracle predicate belongs to. -/
 def propsOf (pred : String) : List String :=
@@ -300,7 +312,8 @@ def propsOf (pred : String) : List String :=
       "RpPayloadsExact", "RpAspasExact", "RpRouterKeysExact"].contains base then ["C01"]
   else if base == "ServerMatchesObjects" then
     (if pred == "ServerMatchesObjects/reissue-without-sync" then ["C14"] else ["C01", "C03"])
-  else if ["SupersededRevoked", "CrlListsRevocations", "ChangeForcesReissue", "RevokeRequestEffective"].contains base
+  else if ["SupersededRevoked", "CrlListsRevocations", "ChangeForcesReissue", "RevokeRequestEffective",
+      "ClassGoneKeysRevoked"].contains base
     then ["C03"]
   else ["C14"]
 
